@@ -151,6 +151,23 @@ def _judge_special(rng, tag):
             if not np.allclose(oa, ob, atol=1e-9) or not np.allclose(a.Wout, b.Wout, atol=1e-9) or not np.allclose(a.bias, b.bias, atol=1e-9):
                 out.append(_viol("chunked-train:%s:learn_every=%d" % (cls.__name__, k), "online training in chunks differs from training on the whole sequence",
                                  {"tag": tag, "kind": "train", "cls": cls.__name__, "k": k}, np.asarray(a.Wout).tolist(), np.asarray(b.Wout).tolist()))
+    # online model with a feedback whose sender sits UPSTREAM of the receiver, trained without teacher forcing
+    from reservoirpy.node import Node
+    def mk_fb_model(t):
+        def init(node, x=None, **kw):
+            node.set_input_dim(x.shape[1]); node.set_output_dim(x.shape[1])
+        A = Node(forward=lambda n, x: 2 * x + n.state() / 2, initializer=init, name="fa%s_%s" % (tag, t))
+        R = Node(forward=lambda n, x: x + 100 * np.asarray(n.feedback()).reshape(1, -1), initializer=init, name="fr%s_%s" % (tag, t))
+        o = RLS(name="fo%s_%s" % (tag, t))
+        R <<= A
+        return A >> R >> o, A, R, o
+    fa, A1, R1, o1 = mk_fb_model("a"); fb_, A2, R2, o2 = mk_fb_model("b")
+    qa = fa.train(X, Y, force_teachers=False)
+    qb = np.vstack([fb_.train(X[s:e], Y[s:e], force_teachers=False) for s, e in pieces])
+    if not np.allclose(qa, qb, atol=1e-7) or not np.allclose(o1.Wout, o2.Wout, atol=1e-7) or not np.allclose(R1.state(), R2.state(), atol=1e-9):
+        out.append(_viol("chunked-train:model-with-upstream-feedback", "online training (no teacher forcing) of a model whose feedback sender is upstream "
+                         "of the receiver differs when done in chunks", {"tag": tag, "kind": "train-fb-model", "cut": cut},
+                         np.asarray(qa).ravel().tolist(), np.asarray(qb).ravel().tolist()))
     ra = Reservoir(3, W=W.copy(), Win=Win.copy(), bias=np.zeros((3, 1)), lr=0.5, name="mr%s_a" % tag) ; rb = Reservoir(3, W=W.copy(), Win=Win.copy(), bias=np.zeros((3, 1)), lr=0.5, name="mr%s_b" % tag)
     oa_, ob_ = RLS(name="mo%s_a" % tag), RLS(name="mo%s_b" % tag)
     ma, mb = ra >> oa_, rb >> ob_
